@@ -56,12 +56,23 @@ func (sa SessionBasedAuthorizer) Handle(response tq.Response, request tq.Request
 		case tq.AuthorStatusPassRepl:
 			stringyHandleAuthorizeAcceptPassReplace.Inc()
 		}
-		response.Reply(
+		if _, err := response.Reply(
 			tq.NewAuthorReply(
 				tq.SetAuthorReplyStatus(status),
 				tq.SetAuthorReplyArgs(args...),
 			),
-		)
+		); err != nil {
+			// configured values that cannot be carried in a reply (an argument longer than 255 bytes, a non ascii value)
+			// must not leave the client without an answer
+			sa.Errorf(request.Context, "unable to encode the authorization reply for user [%v]: %v", sa.user.Name, err)
+			stringyHandleAuthorizeError.Inc()
+			response.Reply(
+				tq.NewAuthorReply(
+					tq.SetAuthorReplyStatus(tq.AuthorStatusError),
+					tq.SetAuthorReplyServerMsg("unable to encode authorization reply"),
+				),
+			)
+		}
 		return
 	}
 	sa.Debugf(request.Context, "user [%v] failed session based authorization", sa.user.Name)
